@@ -316,7 +316,12 @@ def run(tier, seed):
                 problems.append((k, "inverse metric not symmetric positive definite"))
             if not np.allclose(F @ F.T @ Mi, np.eye(d), rtol=0, atol=1e-6):
                 problems.append((k, "momentum factor inconsistent with the metric: F Fᵀ M⁻¹ != I"))
-            if not np.allclose(np.asarray(bf.matrix, dtype=float) @ Mi, np.eye(d), rtol=0, atol=1e-6):
+            try:
+                reported = np.asarray(bf.matrix, dtype=float)
+            except Exception as e:  # e.g. LinAlgError: the inverse metric has become singular
+                problems.append((k, f"the reported matrix cannot be computed: {e!r}"))
+                reported = None
+            if reported is not None and not np.allclose(reported @ Mi, np.eye(d), rtol=0, atol=1e-6):
                 problems.append((k, "reported matrix is not the inverse of the inverse metric"))
             if kind == "A":
                 last_accept = (Mi, F)
